@@ -3,7 +3,7 @@
 From Coq Require Import String.
 From Coq Require Import List Ascii ZArith Bool Lia.
 From CGV Require Import Base.PyBase Base.PyVal Base.NxGraph Resolve.Bonding Resolve.GraphOps Resolve.Pipeline
-     Resolve.MapDefs Resolve.Witness Resolve.MapProofs Resolve.CopyProofs Resolve.PipelineFull Resolve.FragidProofs Resolve.EdgeCopy Resolve.EdgeCopyGen Resolve.BondedCopy Resolve.BondingDefs Resolve.WfMerged Resolve.CoarseCopy Resolve.AllAtomCopy Resolve.SquashedCopy Resolve.SquashedReturned.
+     Resolve.MapDefs Resolve.Witness Resolve.MapProofs Resolve.CopyProofs Resolve.PipelineFull Resolve.FragidProofs Resolve.EdgeCopy Resolve.EdgeCopyGen Resolve.BondedCopy Resolve.BondingDefs Resolve.WfMerged Resolve.CoarseCopy Resolve.AllAtomCopy Resolve.SquashedCopy Resolve.SquashedReturned Resolve.CopyOnto.
 From CGV Require Hydro.NumTotal Dialect.ReturnedCar.
 From CGV Require Hydro.QuotientDefs.
 From CGV Require Compose.RebuildWf Hydro.Hydrogens.
@@ -271,7 +271,9 @@ Proof. exact step_squashed_bonds. Qed.
     of a member of the same class - a merged atom lists every coarse key of its class and nothing else; a template atom whose copy
     is the survivor of its class keeps every attribute the step does not write ([written_keys_sq] = 'contraction' + written_keys);
     images of bonded template atoms are equal or adjacent, and two images are adjacent only if members of their classes were
-    bonded in the bonded graph. *)
+    bonded in the bonded graph; when the coarse keys are distinct, every atom x of the squashed graph (= every returned atom sg x
+    that hydrogen completion did not add) whose fragid lists the coarse key is the image of a template atom of that coarse node:
+    the returned coarse-node graphs are exactly the classes plus the completed hydrogens. *)
 Theorem C02_tail_embeds_squashed : forall aa car meta m3 m4 m5 m6 f6 m7 f7,
   SquashDefs.wf_graph m3 -> ReturnedCar.dicts m3 -> (forall n, In n m3 -> aget (S "fragid") (na n) <> None) ->
   (aa = true -> forall g1, car = Some g1 -> RebuildWf.all_no_rs g1) ->
@@ -316,8 +318,27 @@ Theorem C02_step_squashed_returned : forall legacy aa fd prev car fo, tmpl_dict 
       (forall a b, In a (node_keys frag) -> In b (node_keys frag) ->
          has_edge (fo_mol fo) (sg (QuotientDefs.rho (fo_m2 fo) (cf0 a))) (sg (QuotientDefs.rho (fo_m2 fo) (cf0 b))) = true ->
          exists p q, QuotientDefs.rho (fo_m2 fo) p = QuotientDefs.rho (fo_m2 fo) (cf0 a) /\
-                     QuotientDefs.rho (fo_m2 fo) q = QuotientDefs.rho (fo_m2 fo) (cf0 b) /\ has_edge (fo_m2 fo) p q = true).
+                     QuotientDefs.rho (fo_m2 fo) q = QuotientDefs.rho (fo_m2 fo) (cf0 b) /\ has_edge (fo_m2 fo) p q = true) /\
+      (NoDup (node_keys (fo_meta fo)) -> forall x l, In x (node_keys (fo_m3 fo)) ->
+         node_get (fo_mol fo) (sg x) (S "fragid") = Some (VList l) -> In (VInt (nk mn)) l ->
+         exists a, In a (node_keys frag) /\ QuotientDefs.rho (fo_m2 fo) (cf0 a) = x).
 Proof. exact step_squashed_returned. Qed.
+(** the converse used there (Resolve/CopyOnto.v): for distinct coarse keys every atom of the disconnected / bonded molecule that
+    records exactly [key of mn] is the copy of a template atom of mn's fragment (last clause; the other clauses are those of
+    C02_disconnected_edges_copy / C02_bonded_edges_copy for the same map cf) *)
+Theorem C02_bonded_copy_onto : forall fd meta m1 fg1 legacy aa m2 fg2, tmpl_dict fd -> resolve_disconnected fd meta = Ok (m1, fg1) ->
+  bonding_step legacy aa meta m1 fg1 = Ok (m2, fg2) -> (forall es, base_edges meta = Ok es -> wf_edges es) ->
+  forall pre mn post fv name frag, meta = (pre ++ mn :: post)%list ->
+  aget (S "fragname") (na mn) = Some fv -> lookup_fragment fd fv = Some (name, frag) ->
+  exists cf : Z -> Z,
+    (forall a b, In a (node_keys frag) -> In b (node_keys frag) -> cf a = cf b -> a = b) /\
+    (forall n, In n frag -> node_get m2 (cf (nk n)) (S "fragid") = Some (VList [VInt (nk mn)]) /\
+                            node_get m2 (cf (nk n)) (S "mapping") = Some (mapping_val name (nk n)) /\
+                            forall key, key <> S "fragid" -> key <> S "mapping" -> key <> S "ez_isomer_atoms" -> key <> S "hcount" ->
+                                        node_get m2 (cf (nk n)) key = aget key (na n)) /\
+    (forall a b, In a (node_keys frag) -> In b (node_keys frag) -> edge_attrs m2 (cf a) (cf b) = tmpl_edge frag a b) /\
+    (NoDup (node_keys meta) -> forall x, node_get m2 x (S "fragid") = Some (VList [VInt (nk mn)]) -> exists a, In a (node_keys frag) /\ x = cf a).
+Proof. exact bonded_copy_onto. Qed.
 (** non-vacuity: {[#A][#B]}.{#A=[#X][#Y][!],#B=[!][#Y][#Z]} (coarse): the dictionary satisfies the three hypotheses on it, the
     base edge joins different coarse nodes, the step returns, squashes (4 atoms before, 3 after) and the shared atom comes back
     listing both coarse keys *)
@@ -325,14 +346,14 @@ Definition fd_SQ02 : fragdict :=
   [(S "A", [tnode 0 "A" "X" [] [(1, 1)]; tnode 1 "A" "Y" ["!1"%string] [(0, 1)]]);
    (S "B", [tnode 0 "B" "Y" ["!1"%string] [(1, 1)]; tnode 1 "B" "Z" [] [(0, 1)]])].
 Example C02_step_squashed_returned_nonvacuous :
-  tmpl_dict fd_SQ02 /\ wf_attrs fd_SQ02 /\ NumTotal.hnum_dict fd_SQ02 /\
+  tmpl_dict fd_SQ02 /\ wf_attrs fd_SQ02 /\ NumTotal.hnum_dict fd_SQ02 /\ NoDup (node_keys base_AB) /\
   match base_edges base_AB with Ok es => forallb (fun e => negb (Z.eqb (fst (fst e)) (snd (fst e)))) es | Err _ => false end = true /\
   match resolve_step_full true false fd_SQ02 base_AB None with
   | Ok fo => Nat.eqb (length (fo_m2 fo)) 4 && Nat.eqb (length (fo_m3 fo)) 3 && Nat.eqb (length (fo_mol fo)) 3 &&
              existsb (fun n => match aget (S "fragid") (na n) with Some (VList [VInt 0; VInt 1]) => true | _ => false end) (fo_mol fo)
   | Err _ => false end = true.
 Proof.
-  split; [|split; [|split; [|split; vm_compute; reflexivity]]].
+  split; [|split; [|split; [|split; [vm_compute; repeat constructor; cbn; intuition discriminate|split; vm_compute; reflexivity]]]].
   - intros name g H. cbn [fd_get fd_SQ02] in H.
     destruct (str_eqb name (S "A")).
     { inversion H; subst; clear H. split.
@@ -450,6 +471,7 @@ Print Assumptions C02_tail_embeds_squashed.
 Print Assumptions C02_squash_keeps_dicts.
 Print Assumptions C02_merged_lists_from.
 Print Assumptions C02_step_squashed_returned.
+Print Assumptions C02_bonded_copy_onto.
 Print Assumptions C02_frag_exact.
 Print Assumptions C02_frag_cover.
 Print Assumptions C02_fragid_singleton.
